@@ -65,6 +65,7 @@ Section Lift.
   Qed.
 
   Hypothesis containment : csi_bin_containment ms dp.
+  Hypothesis geo : u32 (ms + u32 (dp * csi_nextBinShift)) < 63.
 
   Lemma cquery_complete ix seen R rid beg end_ :
     CQInv ix seen -> In R seen -> ix_overlaps R rid beg end_ ->
@@ -75,7 +76,8 @@ Section Lift.
     destruct (cq_seen _ _ Q R HR) as (A & _ & _).
     unfold cs_chunks.
     destruct (q_rid R <? 0) eqn:E1; [apply Z.ltb_lt in E1; lia|].
-    destruct (q_rid R >=? zlen (c_refs ix)) eqn:E2; [lia|]. simpl.
+    destruct (q_rid R >=? zlen (c_refs ix)) eqn:E2; [lia|]. cbn [orb].
+    destruct (cs_query_valid ix ms dp beg end_ (cq_ms _ _ Q) (cq_dp _ _ Q) geo Hq Hq2) as (V1 & V2). rewrite V1, V2. cbn [fst].
     destruct (CQInv_sort _ _ Q) as ([Q0 Q0' Q1 Q2 Q3] & Es).
     set (ix' := cs_sort ix) in *. rewrite Q0, Q0'.
     assert (Hlen : zlen (c_refs ix') = zlen (c_refs ix)).
@@ -115,7 +117,8 @@ Section Lift.
         intros R HR Hp. apply S. right. split; assumption.
       - destruct IH as (seen & Q & S). exists seen. split; [apply CQInv_sort; exact Q|exact S].
       - destruct IH as (seen & Q & S). exists seen. split; [|exact S]. unfold cs_chunks.
-        destruct ((rid <? 0) || (rid >=? zlen (c_refs ix))); simpl; [exact Q|apply CQInv_sort; exact Q].
+        destruct ((rid <? 0) || (rid >=? zlen (c_refs ix))); simpl; [exact Q|].
+        destruct ((beg <? 0) || (end_ <=? beg) || (beg >=? cs_max ix)); simpl; [exact Q|apply CQInv_sort; exact Q].
       - destruct IH as (seen & Q & S). exists seen. split; [apply CQInv_merge; assumption|exact S]. }
     destruct H as (seen & Q & S).
     intros rid beg end_ r Hq Hq2 Hr Ho. eapply cquery_complete; eauto.
